@@ -86,6 +86,10 @@ func c09Setup(root string, cs c09Case) (op c09Op, old []byte, oldExists bool) {
 		sh := history.NewSearchHistory(path, 100)
 		for i := 0; i < cs.Entries; i++ {
 			vtime.Advance(time.Second)
+			if cs.Entries >= 2 && i == cs.Entries/2 {
+				// the first half of the history is more than a month older than the write under test
+				vtime.Advance(40 * 24 * time.Hour)
+			}
 			sh.AddEntry(fmt.Sprintf("earlier query %d", i), i%5, "generic directory", time.Duration(i)*time.Millisecond)
 		}
 		sh.Save()
@@ -560,7 +564,7 @@ func init() {
 	lib.Subs["fsize"] = c09FsizeChild
 	lib.Register(&lib.Check{
 		ID: "C09", Level: "fault_enumeration",
-		Rule:      "exhaustive crash-point and error-point enumeration at the os seam (vos) on the real write paths: for the notebook save (saveToPersonalDatabase) and the history update made by every search (Load, AddEntry, Save), starting from a missing file and from files of 0, 1, 5 (quick) and 40 (thorough) entries, as the second write of a two-write history, and with the file being a symbolic link to a file kept elsewhere: a dry run records the mutating file-system steps (mkdir, create/truncate, every write, sync, chmod, close, rename, remove); then a crash is injected at EVERY step boundary and at EVERY byte offset of every write (later clean-up calls are dropped, as in a killed process), and ENOSPC and EIO are injected at the same positions; after each, the file as a fresh process finds it must equal the complete previous or the complete new content, a write that did not take effect must have returned an error, and the earlier entries must load. Two-fault histories: the first write is killed at EVERY crash point, then a fresh process completes a second, shorter write; the file must hold exactly that write's content (no reuse of leftovers). Process twin: the real `wtf save`, `wtf save-pipeline`, `wtf <query>` and a `wtf save` that replaces an existing entry by a much shorter one (new file shorter than the old) re-executed under RLIMIT_FSIZE = k for EVERY k in 0..len(new content), same oracle on the file plus 'saved successfully' only if saved. evaluations = injected runs; non-trivial = runs in which the fault fired",
+		Rule:      "exhaustive crash-point and error-point enumeration at the os seam (vos) on the real write paths: for the notebook save (saveToPersonalDatabase) and the history update made by every search (Load, AddEntry, Save), starting from a missing file and from files of 0, 1, 5 (quick) and 40 (thorough) entries (the older half of a history dated more than a month before the write), as the second write of a two-write history, and with the file being a symbolic link to a file kept elsewhere: a dry run records the mutating file-system steps (mkdir, create/truncate, every write, sync, chmod, close, rename, remove); then a crash is injected at EVERY step boundary and at EVERY byte offset of every write (later clean-up calls are dropped, as in a killed process), and ENOSPC and EIO are injected at the same positions; after each, the file as a fresh process finds it must equal the complete previous or the complete new content, a write that did not take effect must have returned an error, and the earlier entries must load. Two-fault histories: the first write is killed at EVERY crash point, then a fresh process completes a second, shorter write; the file must hold exactly that write's content (no reuse of leftovers). Process twin: the real `wtf save`, `wtf save-pipeline`, `wtf <query>` and a `wtf save` that replaces an existing entry by a much shorter one (new file shorter than the old) re-executed under RLIMIT_FSIZE = k for EVERY k in 0..len(new content), same oracle on the file plus 'saved successfully' only if saved. evaluations = injected runs; non-trivial = runs in which the fault fired",
 		Assume:    []string{"file-system calls of the write path go through os.* functions that the build overlay routes to vos; a crash preserves the bytes already written (prefix model), no reordering of un-synced data", "history content is made deterministic with the virtual clock"},
 		QuickSecs: 200, ThorSecs: 1500,
 		Run: c09Run,
